@@ -979,19 +979,24 @@ class ConvertInstance:
                         branch_temporaries = search_invalid_temporaries(branch_code)
                         invalid_temporaries |= branch_temporaries
 
+                        # only temporaries defined in every branch are always defined
                         if always_defined is None:
-                            always_defined = branch_temporaries
+                            always_defined = set(branch_temporaries)
                         else:
-                            always_defined.difference_update(branch_temporaries)
+                            always_defined.intersection_update(branch_temporaries)
 
                     if stmt._default is not None:
                         default_temporaries = search_invalid_temporaries(stmt._default)
                         invalid_temporaries |= default_temporaries
 
                         if always_defined is None:
-                            always_defined = branch_temporaries
+                            always_defined = set(default_temporaries)
                         else:
-                            always_defined.difference_update(branch_temporaries)
+                            always_defined.intersection_update(default_temporaries)
+                    else:
+                        # without a default branch the value might match
+                        # no branch at all, so nothing is always defined
+                        always_defined = set()
 
                     invalid_temporaries.difference_update(always_defined)
                     local_temporaries |= always_defined
